@@ -30,7 +30,10 @@ def check(report: Report, repo: Repo) -> None:
     ]
     cons = f"{FM}::FPFormat.quantise"
     TM.FINITE_DOMAINS.update({E: range(2, 9), M: range(0, 11), SR: range(1, 24)})
-    res, events, it, err = run_quantise(repo, "stochastic", SR)
+    from ..schemas import dim
+
+    XS = (dim("n0"), dim("n1"))  # a rank-2 argument with symbolic sizes (strides symbolic)
+    res, events, it, err = run_quantise(repo, "stochastic", SR, shape=XS)
     if err:
         report.add("R2-offset", cons, None, f"outside fragment: {err}")
     else:
@@ -44,13 +47,13 @@ def check(report: Report, repo: Repo) -> None:
             report.add("R1-draws", f"{cons}::randint.low", TM.expr_equal(b.get("low"), 0), "low == 0", fmt(b.get("low")), "0")
             report.add("R1-draws", f"{cons}::randint.high", TM.expr_equal(b.get("high"), 2**SR), "high == 2^srbits (exclusive)", fmt(b.get("high")), fmt(2**SR))
             sz = TM.term_of(b.get("size"))
-            report.add("R1-draws", f"{cons}::randint.size", sz == T("attr", (T("param", ("x",)), "shape")), "size == x.shape: one independent draw per element", fmt(sz), "x.shape")
+            report.add("R1-draws", f"{cons}::randint.size", sz == tuple(XS) or sz == T("attr", (T("param", ("x",)), "shape")), "size == x.shape: one independent draw per element", fmt(sz), "x.shape")
             dt = TM.term_of(kw.get("dtype"))
             report.add("R1-draws", f"{cons}::randint.dtype", dt == T("ext", ("torch.int32",)), "dtype int32 (added to the int32 bit pattern)", fmt(dt), "torch.int32", nontrivial=False)
             dv = TM.term_of(kw.get("device"))
             report.add("R1-draws", f"{cons}::randint.device", dv == T("attr", (T("param", ("x",)), "device")), "drawn on x.device", fmt(dv), "x.device", nontrivial=False)
         got_i = TM.instances(canon(TM.normalize(TM.term_of(res))))
-        exp_i = TM.instances(canon(TM.normalize(TM.term_of(ref_term(it, "stochastic", SR, 0)))))
+        exp_i = TM.instances(canon(TM.normalize(TM.term_of(ref_term(it, "stochastic", SR, 0, shape=XS)))))
         if len(got_i) != len(exp_i):
             report.add("R2-offset", f"{cons}::return", False, f"expected {len(exp_i)} guarded cases (bias term iff srbitsbar>0), found {len(got_i)}", [TM.guard_str(g) for g, _ in got_i], [TM.guard_str(g) for g, _ in exp_i])
         else:
@@ -79,4 +82,9 @@ def check(report: Report, repo: Repo) -> None:
         report.add("R4-default-srbits", f"{cpi}::nearest+srbits", raised == ["AssertionError"], "non-zero srbits with nearest rounding is rejected", raised, ["AssertionError"])
     except Unsupported as ex:
         report.add("R4-default-srbits", cpi, None, f"outside fragment: {ex}")
+    # the random-bit count in effect is the one of the format object the caller used (no cross-call
+    # caching of the straight-through quantiser keyed by the printed name, which omits srbits)
+    from .c15 import check_per_format
+
+    check_per_format(report, repo, "R5-per-format")
     report.floor("obligations", len(report.obls), 12)
